@@ -11,7 +11,7 @@ from mirsym.harness import Checker, model_int, program
 
 ROOTS = []
 ASSUMPTIONS = [
-    "sequential part only: compile_to_string (rasn backend) runs from real MIR through /verif/pipe-harness; the integers written in the modules are 128-bit solver variables (substituted between lexer and validator); process state is what the executor models - statics / LazyLock tables shared by all compilations of a job, HashSet as a membership structure (its randomised iteration order is never observed by the code: iteration is refused by the model)",
+    "sequential part only: compile_to_string (rasn backend) runs from real MIR through /verif/pipe-harness; the integers written in the modules are 128-bit solver variables (substituted between lexer and validator); process state is what the executor models - statics / LazyLock tables shared by all compilations of a job, HashMap / HashSet as membership structures whose ITERATION ORDER is arbitrary: every iteration forks into all n! orders (std seeds them randomly), so an output that depends on such an order differs between two compilations on some explored path",
     "orders: every permutation of the 3 (thorough 4) assignments of a module with mutual references; both orders of two modules inside one source and of their assignments; both orders of two sources; a compilation repeated after a different compilation in the same process; all texts must be equal character by character (rendered integers as terms) and the numbers of warnings equal",
     "threads (the property's 'another thread', 1..16 concurrent compilations) and the 670 real-world modules are NOT covered: mirsym executes single-threaded MIR and a whole real-world module exceeds the per-path budget by orders of magnitude",
 ]
@@ -67,6 +67,14 @@ def cases(tier):
     g2 = [f"Tanks {H} Level ::= INTEGER {{ empty(0), limit({P2}) }} (empty..limit) Reading ::= SEQUENCE {{ raw Level DEFAULT limit }} Ee ::= ENUMERATED {{ y, x }} x Ee ::= y END"]
     out.append(("repeated after a compilation that reuses its names", [g1, g2, g1], (0, 2)))
     out.append(("repeated after a compilation that reuses its names (2)", [g2, g1, g2], (0, 2)))
+    # values imported from one module whose governing types live in a third module that the importer does not import: the
+    # linker adds those types to the importer's imports (any order it derives from a hashed container would show here,
+    # the executor explores every iteration order of HashMap / HashSet)
+    kinds = f"Kinds {H} Alpha ::= INTEGER (0..{P1}) Beta ::= BOOLEAN Gamma ::= ENUMERATED {{ g1, g2 }} END"
+    consts = f"Constants {H} IMPORTS Alpha, Beta, Gamma FROM Kinds; va Alpha ::= {P2} vb Beta ::= TRUE vc Gamma ::= g2 END"
+    consumer = f"Consumer {H} IMPORTS va, vb, vc FROM Constants; Rec ::= SEQUENCE {{ a INTEGER DEFAULT 1 }} END"
+    out.append(("associated type imports, repeated at once", [[consumer, consts, kinds], [consumer, consts, kinds]]))
+    out.append(("associated type imports, sources permuted", [[consumer, consts, kinds], [kinds, consts, consumer]]))
     return out
 
 
@@ -99,7 +107,8 @@ def run_job(prog_unused, job, tier, seed):
             outs = []
             for srcs in variants:
                 ex.ghost['pipe_subst_count'] = 0
-                outs.append(pp.compile(ex, srcs, sub) + (ex.ghost.get('pipe_subst_count', 0),))
+                h0 = ex.ghost.get('hash_iterations', 0)
+                outs.append(pp.compile(ex, srcs, sub) + (ex.ghost.get('pipe_subst_count', 0), ex.ghost.get('hash_iterations', 0) - h0))
             return outs
         for r in chk.explore(run):
             if r.kind == 'panic':
@@ -135,11 +144,21 @@ def run_job(prog_unused, job, tier, seed):
                     m = chk.model_of(r.pc)
                 vals = [model_int(m, x, True) if m is not None else d0 for x, d0 in zip(v, (5, 9))]
                 sa, sb = conc(variants[i], vals), conc(variants[j], vals)
+                def differ(ra, rb):
+                    return not (ra.get('ok') == rb.get('ok') and (not ra.get('ok') or (norm(ra['generated']) == norm(rb['generated']) and len(ra['warnings']) == len(rb['warnings']))))
                 if compare:
-                    ra = rb = {'ok': True, 'generated': '', 'warnings': []}      # only the history replay below can confirm
+                    same = True      # only the history replay below can confirm
                 else:
-                    ra, rb = runner.compile(sa), runner.compile(sb)
-                same = ra.get('ok') == rb.get('ok') and (not ra.get('ok') or (norm(ra['generated']) == norm(rb['generated']) and len(ra['warnings']) == len(rb['warnings'])))
+                    same = not differ(runner.compile(sa), runner.compile(sb))
+                    # a difference that comes from a randomly seeded container shows only in some runs: up to 8 more pairs, each in a fresh process
+                    for _ in range(8 if same and r.value and any(o[5] for o in outs) else 0):
+                        fresh = native.Runner()
+                        try:
+                            if differ(fresh.compile(sa), fresh.compile(sb)):
+                                same = False
+                                break
+                        finally:
+                            fresh.close()
                 if not same:
                     chk.violation(sig, f"{msg} [values {vals}]: {sa!r} vs {sb!r}", {'kind': 'sources', 'a': sa, 'b': sb})
                 elif compare:
@@ -173,8 +192,18 @@ def replay_file(path):
             outs = [runner.compile(s) for s in rp['sources']]
             same = outs[0].get('generated') == outs[-1].get('generated')
         else:
-            ra, rb = runner.compile(rp['a']), runner.compile(rp['b'])
-            same = ra.get('ok') == rb.get('ok') and (not ra.get('ok') or (norm(ra['generated']) == norm(rb['generated']) and len(ra['warnings']) == len(rb['warnings'])))
+            # a difference caused by a randomly seeded container shows only in some runs: several pairs, fresh processes
+            same = True
+            for k in range(9):
+                rr = runner if k == 0 else native.Runner()
+                try:
+                    ra, rb = rr.compile(rp['a']), rr.compile(rp['b'])
+                finally:
+                    if k:
+                        rr.close()
+                same = ra.get('ok') == rb.get('ok') and (not ra.get('ok') or (norm(ra['generated']) == norm(rb['generated']) and len(ra['warnings']) == len(rb['warnings'])))
+                if not same:
+                    break
     finally:
         runner.close()
     print('REPRODUCED' if not same else 'not reproduced')
